@@ -453,7 +453,9 @@ def runTrace (fuel : Nat) : St → List Tok → Nat → Nat → Bool → TraceRe
   | s, [], _, n, bad => .ok s n bad
   | s, t :: ts, i, n, bad =>
     let name := t.role ++ ":" ++ t.site
-    if t.site.startsWith "obs.udpbad." then
+    if t.site.startsWith "obs.end." || t.site.startsWith "obs.cfg" || t.site.startsWith "obs.nosender." || t.site.startsWith "obs.again" then
+      runTrace fuel s ts (i + 1) n bad      -- judged on the implementation alone (`chkRunEnd`)
+    else if t.site.startsWith "obs.udpbad." then
       -- the Stop has returned and the run is over in the model too (a dropped datagram is no event of the life cycle)
       if s.st == .inactive && s.lp == .off && stoppers s == 0 then runTrace fuel s ts (i + 1) n bad else .obsMismatch i name s
     else if t.site.startsWith "obs.selfw." then
@@ -651,6 +653,38 @@ def chkRpcRestart : List Tok → Nat → Bool → Option String
       else chkRpcRestart ts inflight stopRet
     else chkRpcRestart ts inflight stopRet
 
+/-- Sources whose producer has no hook sites of its own (ROACH): what the core loop receives tells what the producer
+did — a block was ticked and sent, an error block was sent, `nextBlock` was closed after the abort. -/
+def inferProducer : List Tok → List Tok
+  | [] => []
+  | t :: ts =>
+    if t.site == "loop.gotBlock" then
+      { role := "P", site := "prod.tick" } :: { role := "P", site := "prod.send" } :: t :: inferProducer ts
+    else if t.site == "loop.gotError" then { role := "P", site := "prod.sendError" } :: t :: inferProducer ts
+    else if t.site == "loop.gotClosed" then { role := "P", site := "prod.abortSeen" } :: t :: inferProducer ts
+    else t :: inferProducer ts
+
+/-- implementation only, ROACH / RPC-configured sources.  `obs.end.<tag>.<state>.<goroutines>.<port free>`: when a run
+is over (stopped, or ended by itself) the source is Inactive, its goroutines are gone and its UDP port can be bound
+again.  `obs.nosender.<ret>.<state>`: a Start nobody sends data to fails and leaves the source Inactive.
+`obs.cfgBusy.<ret>` / `obs.cfgLen.<ret>`: such a Configure is refused.  `obs.again.failed`: the final configure + run. -/
+def chkRunEnd : List Tok → Option String
+  | [] => none
+  | t :: ts =>
+    let parts := t.site.splitOn "."
+    match parts with
+    | ["obs", "end", tag, st, go, free] =>
+      if st != "0" || go != "0" || free != "1" then
+        some s!"C10:run-end-leaves-resources after the run ended ({tag}): GetState()={st}, life-cycle goroutines left={go}, UDP port free again={free}"
+      else chkRunEnd ts
+    | ["obs", "nosender", r, st] =>
+      if r != "1" || st != "0" then some s!"C10:start-without-data-not-clean Start with nobody sending returned {r} (want an error), state {st} (want Inactive)"
+      else chkRunEnd ts
+    | ["obs", "cfgBusy", r] => if r != "1" then some "C10:configure-accepts-busy-port Configure on a port that is already bound was accepted" else chkRunEnd ts
+    | ["obs", "cfgLen", r] => if r != "1" then some "C10:configure-accepts-mismatched-lists Configure with Rates and HostPort of different lengths was accepted" else chkRunEnd ts
+    | ["obs", "again", "failed"] => some "C10:restart-failed the source could not be configured and run again on the same object"
+    | _ => chkRunEnd ts
+
 /-- implementation only: after one undecodable datagram the run must go on (blocks processed from the valid stream)
 and the following Stop must return.  Token `obs.udpbad.<progress>.<stop returned>.<state>`. -/
 def chkUdpBad : List Tok → Option String
@@ -719,7 +753,8 @@ def chkHold : List Tok → Option String
 was a Stop ⇒ the source reports Inactive; a Start issued in these schedules (always on a source whose Stops have
 returned) is never refused by `SetStateStarting`. -/
 def chkImplOnly (ln : Line) (toks : List Tok) (calls : List (String × Nat)) (fin : Fin) : Option String :=
-  if (chkUdpBad toks).isSome then chkUdpBad toks
+  if (chkRunEnd toks).isSome then chkRunEnd toks
+  else if (chkUdpBad toks).isSome then chkUdpBad toks
   else if (chkSelfW toks).isSome then chkSelfW toks
   else if (chkSelfEnd toks).isSome then chkSelfEnd toks
   else if (chkReuse toks).isSome then chkReuse toks
@@ -737,7 +772,7 @@ def chkImplOnly (ln : Line) (toks : List Tok) (calls : List (String × Nat)) (fi
 /-- judge one executed schedule: property oracle on the implementation's own observations first, then trace
 conformance, outcomes against the model, property oracle with the model's bookkeeping -/
 def judgeRun (ln : Line) (toks0 : List Tok) (calls : List (String × Nat)) (fin : Fin) : Verdict :=
-  let toks1 := expandAsm toks0
+  let toks1 := expandAsm (if ln.kind == "roach" then inferProducer toks0 else toks0)
   let toks := normalize toks1.length false toks1
   match chkFailedObs toks false with
   | some v => .viol v
@@ -782,6 +817,7 @@ def judgeRun (ln : Line) (toks0 : List Tok) (calls : List (String × Nat)) (fin 
             (if ln.sched == "holdStop" then ["stopHeldLong", "gated"] else []) ++
             (if ln.sched == "abacoSelfEnd" then ["selfEnd", "timeoutEnd", "gated"] else []) ++
             (if ln.sched == "udpBad" then ["udp", "badDatagram", "gated"] else []) ++
+            (if ln.sched == "roachSrc" || ln.sched == "abacoRPC" then ["rpcConfigured", "udp", "gated"] else []) ++
             (if countSite toks "asm.spawn" > 0 then ["acquisitionSteps", "gated"] else []) ++
             (if countSite toks "sc.start.refused" > 0 then ["startRefusedWhileActive"] else []) ++
             (if ln.sched == "rnd" || ln.sched == "stopAt" || ln.sched == "reuse" || ln.sched == "timing" then ["gated"] else []) ++
@@ -854,7 +890,9 @@ def runLine (ts : List String) : Verdict :=
   | .ok ln =>
     match ln.out with
     | .panic cls =>
-      if ln.sched == "udpBad" then
+      if ln.sched == "roachSrc" then
+        .viol s!"C10:start-without-data-not-clean the ROACH source crashed the server ({cls})"
+      else if ln.sched == "udpBad" then
         .viol s!"C10:udp-bad-datagram-wedges-source after one undecodable UDP datagram the source wedged and the server crashed ({cls})"
       else if ln.sched == "abacoSelfEnd" then
         .viol s!"C10:abaco-no-clean-self-end the packet stream stopped and the server crashed instead of ending the run ({cls})"
